@@ -72,18 +72,23 @@ def run(ctx, mod, a, log):
     reported = set()
     def report_spec_failures():
         nonlocal violations
+        attempts, t_start = 0, time.time()
         for case, detail in ctx.spec_failures:
             key = classify(case, detail)
             if key is not None and any(f.get("key") == key for f in known):
                 continue
+            # at most three replay files; shrinking is best effort and bounded (many failures often shrink to the same case)
+            if len(reported) >= 3 or (reported and (attempts >= 8 or time.time() - t_start > 150)): break
+            attempts += 1
             shr = getattr(mod, "shrink", None)
             if shr is not None and not a.replay:
+                ctx.shrink_deadline = time.time() + 40
                 try: case, detail = shr(ctx, case, detail)
                 except Exception: traceback.print_exc()
+                ctx.shrink_deadline = None
             sig = json.dumps(case, sort_keys=True, default=str)
             if sig in reported: continue
             reported.add(sig)
-            if len(reported) > 3: break
             fn = vlib.write_replay(prop, "counterexample", case, detail)
             print("VIOLATION property=%s replay=%s" % (prop, fn))
             violations += 1
